@@ -189,10 +189,10 @@ mod kani_harness {
 		kani::cover!(N < 2 || e.entries[1].range.offset == e.entries[0].range.offset + e.entries[0].range.length, "contiguous entries");
 		kani::cover!(N < 2 || e.entries[1].range.offset == e.entries[0].range.offset, "shared offset");
 	}
-	inst!(c01_entries_serialize_1, c01_serialize, [1, 1], 8);
-	inst!(c01_entries_serialize_1w, c01_serialize, [1, 2], 12);
-	inst!(c01_entries_serialize_2, c01_serialize, [2, 1], 12);
-	inst!(c01_entries_serialize_3, c01_serialize, [3, 1], 16);
+	inst!(c01_entries_serialize_1, c01_serialize, [1, 1], 4);
+	inst!(c01_entries_serialize_1w, c01_serialize, [1, 2], 5);
+	inst!(c01_entries_serialize_2, c01_serialize, [2, 1], 5);
+	inst!(c01_entries_serialize_3, c01_serialize, [3, 1], 6);
 
 	// C16: a directory written by an independent encoder (run lengths > 1, shared offsets, leaf entries) is decoded exactly
 	fn c16_decode<const N: usize, const VB: u32>() {
@@ -231,8 +231,8 @@ mod kani_harness {
 		kani::cover!(N < 2 || (use_zero && e.entries[1].range.offset == e.entries[0].range.offset + e.entries[0].range.length));
 		kani::cover!(e.entries[0].run_length == 0 && e.entries[0].range.offset == 0);
 	}
-	inst!(c16_entries_decode_1, c16_decode, [1, 1], 8);
-	inst!(c16_entries_decode_1w, c16_decode, [1, 2], 12);
-	inst!(c16_entries_decode_2, c16_decode, [2, 1], 12);
-	inst!(c16_entries_decode_3, c16_decode, [3, 1], 16);
+	inst!(c16_entries_decode_1, c16_decode, [1, 1], 4);
+	inst!(c16_entries_decode_1w, c16_decode, [1, 2], 5);
+	inst!(c16_entries_decode_2, c16_decode, [2, 1], 5);
+	inst!(c16_entries_decode_3, c16_decode, [3, 1], 6);
 }
